@@ -12,6 +12,8 @@ pub mod c07;
 pub mod c09;
 pub mod c10;
 #[cfg(feature = "net")]
+pub mod c11;
+#[cfg(feature = "net")]
 pub mod c12;
 pub mod c13;
 pub mod c14;
@@ -37,6 +39,8 @@ pub fn dispatch(a: &Args) -> Option<Report> {
         "C07" | "C08" => c07::run(a),
         "C09" => c09::run(a),
         "C10" => c10::run(a),
+        #[cfg(feature = "net")]
+        "C11" => c11::run(a),
         #[cfg(feature = "net")]
         "C12" => c12::run(a),
         "C13" => c13::run(a),
